@@ -8,4 +8,6 @@ require (
 	gopkg.in/yaml.v3 v3.0.1
 )
 
+require gitlab.com/gomidi/midi/v2 v2.2.19 // indirect
+
 replace github.com/berquerant/crd => /repo
